@@ -193,7 +193,10 @@ class SimulatorBase(
             yield self._create_step_result(sim_state)
             return
 
-        noisy_moments = self.noise.noisy_moments(circuit, sorted(circuit.all_qubits()))
+        # The system is the whole simulated register: `circuit` may be only a part of the program
+        # (the prefix before the first measurement or parameterized operation, or the rest).
+        system_qubits = sorted(set(sim_state.qubits) | circuit.all_qubits())
+        noisy_moments = self.noise.noisy_moments(circuit, system_qubits)
         measured: dict[tuple[cirq.Qid, ...], bool] = collections.defaultdict(bool)
         for moment in noisy_moments:
             for op in ops.flatten_to_ops(moment):
